@@ -237,6 +237,20 @@ pub fn call<T>(
         // C10: the process outcome of every call is the oracle
         ctx.stats.oracle_evals += 1;
     }
+    if let Some((k, id)) = crate::instr::take_double_drop() {
+        // a bitwise duplicate of a stored value was dropped a second time
+        if cfg.has(O_OGET | O_CRASH) {
+            ctx.stats.oracle_evals += 1;
+            return Err(Stop::Fail(Failure {
+                oracle: "value",
+                coll,
+                opkind,
+                class: "invariant",
+                tag: "stored value dropped twice".into(),
+                detail: format!("during {} a value inserted for key {} (identity {}) was dropped a second time: the collection duplicated it bitwise instead of cloning it (double free for heap values)", callname, k, id),
+            }));
+        }
+    }
     match r {
         Caught::Ok(v) => Ok((Called::Ok(v), n)),
         Caught::Injected => {
